@@ -143,4 +143,28 @@ theorem except_list_cases {ε μ} (l : List (Except ε μ)) :
       · exact .inr ⟨m :: pre, e, post, rfl⟩
 
 
+
+theorem mapM_ok_map {α β ε} (f : α → Except ε β) (g : α → β) (l : List α)
+    (h : ∀ a ∈ l, f a = .ok (g a)) : l.mapM f = .ok (l.map g) := by
+  induction l with
+  | nil => rfl
+  | cons a l ih =>
+    simp only [List.mapM_cons, h a (by simp), ih (fun x hx => h x (by simp [hx])), List.map_cons]
+    rfl
+
+theorem mapM_map' {α β γ ε} (h : α → β) (f : β → Except ε γ) (l : List α) :
+    (l.map h).mapM f = l.mapM (fun x => f (h x)) := by
+  induction l with
+  | nil => rfl
+  | cons a l ih => simp only [List.map_cons, List.mapM_cons, ih]
+
+theorem eq_map_range_getD {α} (l : List α) (k : Nat) (d : α) (h : l.length = k) :
+    l = (List.range k).map fun i => (l[i]?).getD d := by
+  apply List.ext_getElem?
+  intro i
+  by_cases hi : i < k
+  · simp [hi, List.getElem?_eq_getElem (h ▸ hi)]
+  · simp [hi, List.getElem?_eq_none (by omega : l.length ≤ i)]
+
+
 end LinfaSpec.Fold
